@@ -175,6 +175,8 @@ def run(ctx, out):
         add(f"enc.de utf8 str {C.hexs(b)}", "err incomplete")
 
     impl, model = ctx.pair(ops)
+    from ..flow import history_check
+    history_check(ctx, out, ops, impl, "value encoding")
     out.compare("enc", ops, impl, model)
     out.evaluations += len(ops)
     for o, r, w in zip(ops, impl, want):
